@@ -132,6 +132,23 @@ Definition bucket_ok (s : state) (i : N) : Prop :=
   forall a, In a (bucket s i) <->
             exists x, In x (slabs s) /\ sl_frame x = a /\ sl_idx x = i /\ sl_avail x <> [].
 
+(* page accounting and per-class footprint bookkeeping *)
+Fixpoint sumN (l : list N) : N := match l with [] => 0 | a :: r => a + sumN r end.
+Definition slab_pages (c : cfg) (x : slab) : N := (sl_len c x + page c) / page c.
+Definition large_pages (c : cfg) (x : large) : N := (lg_len x + page c) / page c.
+Definition pages (c : cfg) (s : state) : N :=
+  sumN (map (slab_pages c) (slabs s)) + sumN (map (large_pages c) (larges s)).
+Definition g_free (i : N) (x : slab) : N := if sl_idx x =? i then N.of_nat (length (sl_avail x)) else 0.
+Definition g_cnt (i : N) (x : slab) : N := if sl_idx x =? i then 1 else 0.
+Definition cfree (s : state) (i : N) : N := sumN (map (g_free i) (slabs s)).    (* free objects of class i *)
+Definition cnum (s : state) (i : N) : N := sumN (map (g_cnt i) (slabs s)).      (* slabs ever mapped for class i *)
+Definition nlive_of (s : state) (i : N) : N := nth (N.to_nat i) (nlive s) 0.
+Definition peak_of (s : state) (i : N) : N := nth (N.to_nat i) (peak s) 0.
+Definition foot_ok (c : cfg) (s : state) (i : N) : Prop :=
+  nlive_of s i + cfree s i = cnum s i * nobj c (b2s i)
+  /\ nlive_of s i <= peak_of s i
+  /\ cnum s i * nobj c (b2s i) < peak_of s i + nobj c (b2s i).
+
 Record Inv (c : cfg) (k : N) (s : state) : Prop := {
   I_len : length (partial s) = N.to_nat (nbuckets c);
   I_frames : NoDup (map sl_frame (slabs s) ++ map lg_frame (larges s));
@@ -141,8 +158,55 @@ Record Inv (c : cfg) (k : N) (s : state) : Prop := {
   I_live_nodup : NoDup (live_ptrs s);
   I_live : forall b, In b (live s) -> blk_ok c s b;
   I_partial : forall i, i < nbuckets c -> bucket_ok s i;
-  I_large_live : forall x, In x (larges s) -> In (lg_addr c x) (live_ptrs s)
+  I_large_live : forall x, In x (larges s) -> In (lg_addr c x) (live_ptrs s);
+  I_used : used s = pages c s;
+  I_cnt_len : length (nlive s) = N.to_nat (nbuckets c) /\ length (peak s) = N.to_nat (nbuckets c);
+  I_foot : forall i, i < nbuckets c -> foot_ok c s i
 }.
+
+(* ---------- sums over the slab list ---------- *)
+Lemma sumN_app l1 l2 : sumN (l1 ++ l2) = sumN l1 + sumN l2.
+Proof. induction l1 as [|a l1 IH]; cbn; [reflexivity|]. rewrite IH. lia. Qed.
+
+Lemma sumN_upd_slab (g : slab -> N) a x x' l :
+  NoDup (map sl_frame l) -> In x l -> sl_frame x = a ->
+  sumN (map g (upd_slab a (fun _ => x') l)) + g x = sumN (map g l) + g x'.
+Proof.
+  induction l as [|y r IH]; cbn; [intros _ []|].
+  intros Hnd [-> |Hx] Ha.
+  - apply N.eqb_eq in Ha. rewrite Ha. cbn. lia.
+  - inversion Hnd as [|? ? Hni Hnd']; subst.
+    destruct (sl_frame y =? sl_frame x) eqn:E.
+    + apply N.eqb_eq in E. exfalso. apply Hni. rewrite E. apply in_map. assumption.
+    + cbn. specialize (IH Hnd' Hx eq_refl). lia.
+Qed.
+
+Lemma sumN_remove_large (g : large -> N) x l :
+  NoDup (map lg_frame l) -> In x l ->
+  sumN (map g (remove_large (lg_frame x) l)) + g x = sumN (map g l).
+Proof.
+  induction l as [|y r IH]; cbn; [intros _ []|].
+  intros Hnd [-> |Hx].
+  - rewrite N.eqb_refl. lia.
+  - inversion Hnd as [|? ? Hni Hnd']; subst.
+    destruct (lg_frame y =? lg_frame x) eqn:E.
+    + apply N.eqb_eq in E. exfalso. apply Hni. rewrite E. apply in_map. assumption.
+    + cbn. specialize (IH Hnd' Hx). lia.
+Qed.
+
+Lemma sumN_pointwise {A} (g h : A -> N) l : (forall y, In y l -> g y <= h y) -> sumN (map g l) <= sumN (map h l).
+Proof.
+  induction l as [|y r IH]; cbn; [lia|]. intros H. specialize (IH (fun z Hz => H z (or_intror Hz))).
+  specialize (H y (or_introl eq_refl)). lia.
+Qed.
+
+Lemma sumN_scale {A} (g : A -> N) m l : sumN (map (fun y => g y * m) l) = sumN (map g l) * m.
+Proof. induction l as [|y r IH]; cbn; [reflexivity|]. rewrite IH. lia. Qed.
+
+Lemma sumN_ext {A} (g h : A -> N) l : (forall y, In y l -> g y = h y) -> sumN (map g l) = sumN (map h l).
+Proof.
+  induction l as [|y r IH]; cbn; [reflexivity|]. intros H. rewrite IH, (H y); auto.
+Qed.
 
 (* ---------- geometry of one slab / one large frame ---------- *)
 Section Geometry.
